@@ -105,6 +105,12 @@ def brightest_pixel(img, threshold, **kwargs):
         ndarray: Array of centroid values
     """
 
+    img = numpy.asarray(img)
+    if img.dtype.kind == "u":
+        # unsigned detector frames: ``img - pxlValues`` below would wrap around
+        # instead of going negative, so do the arithmetic in floating point
+        img = img.astype(float)
+
     nPxls = int(round(threshold*img.shape[-1]*img.shape[-2]))
 
     # nPxls-th brightest value of each image (any number of leading stack axes);
@@ -148,6 +154,12 @@ def quadCell(img, **kwargs):
     Returns:
         ndarray: Array of centroid values
     """
+
+    img = numpy.asarray(img)
+    if img.dtype.kind == "u":
+        # unsigned detector frames: the differences of the (unsigned) sums below
+        # would wrap around instead of going negative
+        img = img.astype(float)
 
     xSum = img.sum(-2)
     ySum = img.sum(-1)
